@@ -410,3 +410,94 @@ def run_vh(binary, sub, records, timeout=1800, env=None, args=None, jobs=1, cwd=
 def chunks(lst, n):
     for i in range(0, len(lst), n):
         yield lst[i:i + n]
+
+
+def vh_all(binary, sub, recs, args=None, jobs=12, timeout=3000, env=None, cwd=None):
+    """Like run_vh for harness sub-commands that stop (exit code 3) after reporting a hang, or
+    die on a stack overflow: the remainder is resubmitted, the offending record gets a result
+    {"hang": true} / {"abort": ...}.  Records must carry an "id"."""
+    from concurrent.futures import ThreadPoolExecutor
+
+    def one(part):
+        out, pending = [], part
+        while pending:
+            inp = "\n".join(json.dumps(r) for r in pending) + "\n"
+            p = subprocess.run([binary, sub] + (args or []), input=inp, stdout=subprocess.PIPE, stderr=subprocess.PIPE,
+                               text=True, timeout=timeout, env=env, cwd=cwd)
+            got = [json.loads(l) for l in p.stdout.splitlines() if l.startswith("{")]
+            out.extend(got)
+            if p.returncode == 0:
+                break
+            if p.returncode == 3:
+                pending = pending[len(got):]
+            elif p.returncode < 0 or "overflowed its stack" in p.stderr or p.returncode == 134:
+                k = len(got)
+                if k >= len(pending):
+                    break
+                out.append({"id": pending[k]["id"], "abort": (p.stderr.strip().splitlines() or ["signal %d" % p.returncode])[-1][:200]})
+                pending = pending[k + 1:]
+            else:
+                raise ToolError(f"{os.path.basename(binary)} {sub} failed rc={p.returncode}: {p.stderr[-800:]}")
+        return out
+
+    jobs = max(1, min(jobs, len(recs)))
+    n = (len(recs) + jobs - 1) // jobs
+    parts = [recs[k:k + n] for k in range(0, len(recs), n)]
+    with ThreadPoolExecutor(max_workers=jobs) as ex:
+        outs = list(ex.map(one, parts))
+    return [o for part in outs for o in part]
+
+
+def compile_and_run(vh, programs, workdir, py=None, opt=1, jobs=12, run=True, render=False):
+    """programs: list of source strings.  Each is compiled in-process by the real compiler
+    (vh check, mode compile) to its own .pyc; accepted ones are executed by `py` (one interpreter
+    process per chunk, each module in a fresh namespace, py/verif/pyrun.py).
+    Returns a list of dicts: {"compile": harness result, "run": runner result or None}."""
+    env = erg_env(py)
+    recs = [{"id": i, "src": src, "mode": "compile", "opt": opt, "render": render,
+             "pyc": os.path.join(workdir, f"p{i}.pyc")} for i, src in enumerate(programs)]
+    res = vh_all(vh, "check", recs, jobs=jobs, env=env)
+    byid = {o["id"]: o for o in res}
+    if len(byid) != len(recs):
+        raise ToolError(f"compile harness returned {len(byid)} of {len(recs)} results")
+    out = [{"compile": byid[i], "run": None} for i in range(len(programs))]
+    ok = [i for i in range(len(programs)) if byid[i].get("ok")]
+    if run and ok:
+        from concurrent.futures import ThreadPoolExecutor
+        runner = os.path.join(VERIF, "py", "verif", "pyrun.py")
+        parts = list(chunks(ok, max(1, (len(ok) + jobs - 1) // jobs)))
+
+        def one(part):
+            pending = list(part)
+            got = {}
+            while pending:
+                inp = "\n".join(json.dumps({"id": i, "pyc": recs[i]["pyc"]}) for i in pending) + "\n"
+                try:
+                    p = subprocess.run([py or DEFAULT_PY, runner], input=inp, stdout=subprocess.PIPE, stderr=subprocess.PIPE,
+                                       text=True, timeout=600, env=env, cwd=workdir)
+                    lines, rc, err = p.stdout.splitlines(), p.returncode, p.stderr
+                except subprocess.TimeoutExpired as e:
+                    lines = (e.stdout or b"").decode("utf-8", "replace").splitlines() if isinstance(e.stdout, bytes) else (e.stdout or "").splitlines()
+                    rc, err = -999, "timeout"
+                n = 0
+                for l in lines:
+                    if l.startswith("{"):
+                        try:
+                            r = json.loads(l)
+                        except ValueError:
+                            continue
+                        got[r["id"]] = r
+                        n += 1
+                if n >= len(pending):
+                    break
+                # the interpreter died (or hung) on the next program
+                bad = pending[n]
+                got[bad] = {"id": bad, "out": "", "exc": "InterpreterDied" if rc != -999 else "Timeout", "exc_msg": err[-300:], "exit": rc}
+                pending = pending[n + 1:]
+            return got
+
+        with ThreadPoolExecutor(max_workers=len(parts)) as ex:
+            for g in ex.map(one, parts):
+                for i, r in g.items():
+                    out[i]["run"] = r
+    return out
